@@ -73,6 +73,22 @@ def proxy_url(p):
     return s
 
 
+N_ENV_NOISE = 6
+
+
+def env_noise(i, host):
+    """Variables that generic HTTP tooling consults (exemption lists, lower-case spellings, a catch-all proxy)."""
+    bare = host.strip("[]")
+    other = "http://other-proxy.invalid:1"
+    return [{},
+            {"NO_PROXY": "*", "no_proxy": "*"},
+            {"no_proxy": bare, "NO_PROXY": bare},
+            {"NO_PROXY": ".test,.example,localhost,127.0.0.1,::1,2001:db8::7", "no_proxy": ".test,.example,localhost,127.0.0.1,::1"},
+            {"http_proxy": other, "https_proxy": other, "ALL_PROXY": "socks5://other-proxy.invalid:2",
+             "all_proxy": "socks5://other-proxy.invalid:2", "ws_proxy": other, "wss_proxy": other},
+            {"REQUESTS_CA_BUNDLE": "/nonexistent", "NO_PROXY": bare + ":80," + bare + ":443"}][i % N_ENV_NOISE]
+
+
 class C19(Prop):
     id = "C19"
     level = "fault_enumeration"
@@ -121,6 +137,9 @@ class C19(Prop):
             "earlier": gen.weighted([(3, st.none()), (1, st.fixed_dictionaries({
                 "reply": st.sampled_from([n for n, _, _ in REPLIES]), "cut": st.one_of(st.none(), st.integers(0, 120)),
                 "end": st.sampled_from(["eof", "reset"]), "same": st.booleans()}))]),
+            # other proxy-related variables in the PROCESS environment (see env_noise): with an explicit mapping the
+            # mapping alone says whether and which proxy is used
+            "env_noise": gen.weighted([(3, st.just(0)), (2, st.integers(0, N_ENV_NOISE - 1))]),
         })
 
     def enumerations(self, tier):
@@ -187,7 +206,19 @@ class C19(Prop):
                                                       "user": None, "password": None},
                                            "reply": name, "after": "eof", "seg": seg, "fault": None,
                                            "during": {"op": op, "n": k, "do": do}}
+        def environment():
+            # every explicit mapping x every kind of proxy-related variable in the process environment x every target
+            for mapping in ("http", "https", "both", "empty", "other_scheme_only"):
+                for noise in range(1, N_ENV_NOISE):
+                    for host in TARGET_HOSTS:
+                        for secure in (False, True):
+                            yield {"secure": secure, "host": host, "port": None, "mapping": mapping, "env_noise": noise,
+                                   "proxy": {"scheme": "http", "host": "proxy.test", "port": 3128, "user": None, "password": None},
+                                   "proxy2": {"scheme": "http", "host": "squid.corp.example", "port": None, "user": None,
+                                              "password": None},
+                                   "reply": "200_established", "after": "eof", "seg": "whole", "fault": None}
         return [Enumeration("every_cut_of_the_proxy_reply", every_cut, exhaustive=True),
+                Enumeration("explicit_mapping_x_proxy_variables_in_the_environment", environment, exhaustive=True),
                 Enumeration("every_reply_class", every_reply, exhaustive=True),
                 Enumeration("sends_from_another_thread_while_connecting", sends_while_connecting, exhaustive=True),
                 Enumeration("answer_at_the_size_limit_x_cut_in_terminator", limit_and_terminator, exhaustive=True),
@@ -251,6 +282,9 @@ class C19(Prop):
             else:
                 att["faults"] = {kind: {str(n): how}}
         scn = {"url": url, "attempts": [att], "ws_opts": {"proxies": proxies}, "env": env, "horizon": 1000.0}
+        if proxies != "env" and case.get("env_noise"):
+            scn["process_env"] = dict(env, **env_noise(case["env_noise"], case["host"]))
+            labels.add("process_env_noise:%d" % case["env_noise"])
         during = case.get("during")
         if during:
             scn["io_reactions"] = [{"at": [during["op"], during["n"]], "do": [during["do"]]}]
